@@ -509,9 +509,9 @@ def _compare(step, where, lo, eo, bytes_like=False, fmt=None):
     if eo[0] == "exc":
         return None, Divergence(step, where, "only-eager-fails:" + eo[1], "eager raised %s(%s); lazy gave %r" % (eo[1], eo[2], _short(lo[1])))
     if lo[1] != eo[1]:
-        kind = "values-differ"
+        kind = "values-differ:" + diff_class(lo[1], eo[1])
         if bytes_like:
-            kind = "bytes-differ"
+            kind = "bytes-differ:" + diff_class(lo[1], eo[1])
             lb, eb = strip_comment_lines(fmt, lo[1]), strip_comment_lines(fmt, eo[1])
             if lb == eb:
                 kind = HEADER_ONLY
@@ -521,6 +521,29 @@ def _compare(step, where, lo, eo, bytes_like=False, fmt=None):
                 return None, d
         return None, Divergence(step, where, kind, "lazy %r != eager %r" % (_short(lo[1]), _short(eo[1])))
     return "equal", None
+
+
+def diff_class(a, b):
+    """how two unequal observations differ: 'length' (different number of rows / lines), 'permuted' (the same rows
+    in another order: an alignment fault), 'content' (some row has other content).  Part of the signature, so that
+    a misalignment is not taken for a known content difference of the same program shape."""
+    import json
+    if isinstance(a, str) and isinstance(b, str):
+        a, b = a.splitlines(), b.splitlines()
+    if isinstance(a, dict) and isinstance(b, dict) and "dc" in a and "dc" in b:
+        for (fa, va), (fb, vb) in zip(a["dc"], b["dc"]):
+            if fa != fb:
+                return "content"
+            if va != vb:
+                return diff_class(va, vb)
+        return "content"
+    if isinstance(a, list) and isinstance(b, list):
+        if len(a) != len(b):
+            return "length"
+        key = lambda x: json.dumps(x, sort_keys=True, default=str)
+        if sorted(map(key, a)) == sorted(map(key, b)):
+            return "permuted"
+    return "content"
 
 
 HEADER_ONLY = "header-or-comment-lines-differ"
@@ -587,8 +610,8 @@ def run_program(env, prog, final=True):
         lo = _outcome(lambda: apply_op(env, op, L, None, "lazy"))
         eo = _outcome(lambda: apply_op(env, op, E, None, "eager"))
         st, d = _compare(len(prog), where, lo, eo, bytes_like=(op[0] == "write"), fmt=env.fmt)
-        if d and where == "write" and d.kind == "bytes-differ" and \
-                any(x.where == "observe" and x.kind == "values-differ" and x.step == len(prog) for x in divs):
+        if d and where in ("tolist", "write") and d.kind.startswith(("bytes-differ", "values-differ")) and \
+                any(x.op == "get" and x.kind.startswith("values-differ") and x.step == len(prog) for x in divs):
             continue   # a consequence of the diverging column already reported
         if d:
             d.empty = (n == 0)
@@ -757,6 +780,16 @@ def alphabet(fields, level):
 PURE = ("len", "tolist", "write", "item", "str", "get", "iter")
 
 
+def pair_programs(mini):
+    """both operands of a concatenation carry state: [X on t, swap, Y on the other table, concatenate] for X, Y in
+    the state-changing ops of the mini alphabet (cache a field, materialise, index, replace, set)"""
+    state = [o for o in mini if o[0] in ("get", "tolist", "idx", "replace", "set")]
+    for x in state:
+        for y in state:
+            for c in ("tu", "ut"):
+                yield [x, ["swap"], y, ["cat", c]]
+
+
 def redundant(prog):
     for a, b in zip(prog, prog[1:]):
         if a == b and (a[0] in PURE or a[0] == "swap"):
@@ -784,6 +817,8 @@ class Runner:
         """the alphabet of one configuration; t[i] is left out of the products where it fails in both modes on the
         table as read (then every program containing it is the program without it)"""
         fm = (fmt, mode)
+        if level == "pair":
+            return self.ops(fmt, mode, "mini")
         if fm not in self.fields:
             self.fields[fm] = field_names(self.env(fmt, mode))
             st, divs = run_program(self.env(fmt, mode), [["item", "last"]], final=False)
@@ -865,6 +900,7 @@ def plan(tier):
             tasks += [(0, fmt, cs[0], "core"), (1, fmt, cs[0], "core")]
             samples += [(fmt, "whole", 8, 4), (fmt, cs[0], 8, 4)]
             tasks.append((2, fmt, "whole", "core" if fmt == "bed" else "mini"))
+            tasks.append((4, fmt, "whole", "pair"))
             if fmt in MAIN:
                 tasks.append((2, fmt, cs[0], "mini"))
         else:
@@ -873,13 +909,14 @@ def plan(tier):
             samples += [(fmt, m, 40, 6) for m in ["whole"] + cs]
             tasks.append((2, fmt, "whole", "core"))
             tasks += [(2, fmt, m, "mini") for m in cs]
+            tasks += [(4, fmt, m, "pair") for m in ["whole", cs[0]]]
             if fmt not in ("bed6", "bed12", "narrowPeak", "sizes"):   # these share every code path with bed / bdg
                 tasks.append((3, fmt, "whole", "mini"))
             if fmt == "bed":
                 tasks += [(2, fmt, "whole", "wide"), (3, fmt, "whole", "core"), (4, fmt, "whole", "mini")]
             if fmt in MAIN:
                 tasks += [(3, fmt, cs[0], "mini")]
-    tasks.sort(key=lambda t: t[0])
+    tasks.sort(key=lambda t: (t[0], t[3] != "pair"))
     return tasks, samples
 
 
@@ -915,7 +952,7 @@ def run(tier="quick", seed=0):
                 bounds["cut"].append([L, fmt, mode, level])
                 continue
             n0 = col.evaluations
-            for prog in itertools.product(ops, repeat=L):
+            for prog in (pair_programs(ops) if level == "pair" else itertools.product(ops, repeat=L)):
                 if redundant(prog):
                     continue
                 r.evaluate(fmt, mode, [list(o) for o in prog], contract)
